@@ -440,10 +440,10 @@ def conditions(tier, seed):
                 k += 1
                 if envk != "default" and (k + seed) % (2 if th else 4):
                     continue
-                deep = (k + seed) % (4 if th else 9) == 0
+                deep = (k + seed) % (8 if th else 9) == 0
                 n = (3 if deep else 2) if th else (2 if deep else 1)
                 out.append(Cond(f"tokens[{envk}] {first} {' '.join(lead)} + <= {n} more", "seq_ok", mode="B",
-                                param={"env": envk, "first": first, "lead": lead, "n": n}, timeout=to * (3 if n > 1 else 1),
+                                param={"env": envk, "first": first, "lead": lead, "n": n}, timeout=to * ((2 if th else 3) if n > 1 else 1),
                                 witnesses=[[[0] * n], [[45, 46, 17][:n]], [[len(KW) + 8, 43, 20][:n]]],
                                 bounds=f"fixed lead + up to {n} further tokens from the {len(KW) + len(OPS) + len(LITS) + len(STRUCT)}(+{len(EXTKW)})-token alphabet (a third token from a {len(TAIL)}-token representative subset), pruned by what the real parser asks for"))
     ns = 3
